@@ -13,6 +13,7 @@ CHECKS = {
  "C03": ("fsdiff/invariants", "exploration", "seeded search over histories incl. root removal, rename into own subtree, creation below files, on mem, keyvalue+SimStore, mount and Sub stacks; tree invariants evaluated over the closure of candidate paths and over the store's key set after every mutating step; unbounded recursion is caught by worker crash attribution", "samples histories; listing order permuted from the choice stream; termination judged by the per-trial watchdog and stack-overflow attribution", TECH_SEQ),
  "C04": ("fsdiff/name-fuzz", "exploration", "seeded search: invalid names (ValidPath boundary mutations) in every argument position of 21 helpers on twelve layer stacks inside ordinary histories; error must match ErrInvalid and every participating FS must be unchanged; converse checked against an os twin with odd but valid names", "no schedule or fault dimension (weakest fit for the technique, see DESIGN 2.1); 'no OS path reaches the kernel' is judged through its effect (scratch directory unchanged)", TECH_SEQ),
  "C05": ("fsdiff/layer-stacks", "exploration", "seeded search over histories on twelve layer stacks mirrored on an os twin; every failing call judged for concrete error type, path fields in the caller's namespace and the sentinel the os error matches", "samples histories; mount points as operands of Remove/Rename are configuration and not compared; Op strings are not compared", TECH_SEQ),
+ "C06": ("mountsim", "exploration", "three drawn modes: routing (0-4 mount points incl. nested and look-alike prefixes, mount-table iteration order redrawn on every lookup, every op compared with the same op applied directly to the constituent a ten-line spec selects on twin constituents, all constituents compared; AddMount validation and MountPoints()), cross-mount rename of a regular file with faults on either constituent (create, k-th write after a prefix, lossy close, source removal), and 2-4 concurrent AddMount calls as tasks under the seeded scheduler", "mount points and their ancestors as operands of Remove/Rename are outside the routing comparison (KF-C03-001 / configuration); cross-mount rename of directories is ErrNotImplemented and accepted as such", TECH_SCHED),
  "C07": ("fsdiff/sub-twin", "exploration", "seeded search: two identical instances driven by the same history, op(Sub(A,dir),name) against op(B,dir/name), comparing outcome, data, error path and full snapshots", "samples histories; dir is an existing or missing directory, never a regular file; OS symlinks excluded as in the statement", TECH_SEQ),
  "C08": ("capsim", "exploration", "seeded search over (helper, exposed-interface subset, start state, fault position): each package helper on a FaultFS exposing a drawn subset of exactly the interfaces its dispatch inspects (70 generated wrapper types over real mem.FS / os.FS), against a twin exposing all of them; in half of the trials one primitive call inside the fallback path fails", "samples subsets and fault positions (all 2^k subsets per helper are reachable by the draw, coverage is counted, not enumerated); what the caller does with a handle returned by OpenFile/Create is not part of the helper", TECH_FAULT),
  "C10": ("cachesim", "exploration", "seeded search over source trees (sizes around the copy buffer), RetainData policies, cache-store kinds (full mem.FS / only OpenFile+Mkdir), copy-buffer knob values and access sequences on cache.ReadOnlyFS, mirrored call by call on handles of the source; plus the source call log for 'not read again'", "fault-free configuration of the C11 simulator (legal odd read shapes only); Seek is compared on regular files only; page order of directory reads is not compared, page sizes and the final multiset are; mtimes are not compared", TECH_SEQ + " with buggified read shapes and a knob for the copy buffer"),
